@@ -15,8 +15,8 @@ import (
 	"sync/atomic"
 	"time"
 
-	"github.com/oxia-db/oxia/proto"
 	time2 "github.com/oxia-db/oxia/common/time"
+	"github.com/oxia-db/oxia/proto"
 	"github.com/oxia-db/oxia/server/wal"
 
 	"verif/lib/ev"
@@ -34,10 +34,10 @@ type mentry struct {
 }
 
 type config struct {
-	name        string
-	segSize     int32
-	small, big  int
-	syncData    bool
+	name       string
+	segSize    int32
+	small, big int
+	syncData   bool
 }
 
 const retentionMs = 10_000
